@@ -385,7 +385,7 @@ func genC12(dir, tier string, seed int64) {
 	r := rand.New(rand.NewSource(seed))
 	hdr := "From Coq Require Import List String ZArith.\nFrom V Require Import DType Case Decode CheckC12.\nImport ListNotations.\nOpen Scope Z_scope.\nDefinition cases : list pcase := ["
 	cwA := newCaseWriter(dir, "C12_decode", hdr, opFooter,
-		"onnx.TensorFromProto on generated TensorProtos: 11 element types x {typed field, raw little-endian bytes} x shapes of rank 0..4 (extents 1..3) x element bit patterns (extremes, negatives, NaN payloads incl. signalling, -0, random); payload length perturbed (short by a byte / an element, long by a byte / an element, empty); dims with a zero or negative entry or one entry off; every other data_type code 0..22, 99, negative ones and the int32 extremes with each typed field or raw populated or nothing populated, and codes 0, 16, 99 with every pair of typed fields (equal and different lengths) and all five populated; NaN payloads compared bit for bit", false, 500)
+		"onnx.TensorFromProto on generated TensorProtos: 11 element types x {typed field, raw little-endian bytes} x shapes of rank 0..4 (extents 1..3) x element bit patterns (extremes, negatives, NaN payloads incl. signalling, -0, random); payload length perturbed (short by a byte / an element, long by a byte / an element, empty); typed field AND raw bytes populated with different element counts (either one matching dims) or equal counts and other values; dims with a zero or negative entry or one entry off; every other data_type code 0..22, 99, negative ones and the int32 extremes with each typed field or raw populated or nothing populated, and codes 0, 16, 99 with every pair of typed fields (equal and different lengths) and all five populated; NaN payloads compared bit for bit", false, 500)
 	cwB := newCaseWriter(dir, "C12_load", hdr, opFooter,
 		"the same protos as one of three initializers (first, middle or last; the others well-formed; one model in three also carries, before it, a twin with the same payload and element type but other dims of the same element count) of a model whose declared output is that initializer: the model is first built once with gonnx.NewModel(mp), which must leave the proto byte-identical; then NewModelFromBytes(proto.Marshal(mp)) and Run with no inputs; the same model declaring one of the well-formed initializers as its output must load and run exactly when this one does (reported as a panic-class outcome otherwise)", false, 500)
 	cwC := newCaseWriter(dir, "C12_constant", hdr, opFooter,
@@ -611,6 +611,30 @@ func genC12(dir, tier string, seed int64) {
 				setField(tp, f, []int{n, 5 - n}[k%2])
 			}
 			emit(tp, "unsupported-type-all-fields")
+		}
+	}
+	// BOTH encodings populated (typed field and raw bytes) with different element counts, either of which
+	// may be the one that matches dims; equal counts with different values; rank 0 and rank 1..2
+	for _, ti := range ttypes {
+		one := uint64(1)
+		if ti.kind == "f32" {
+			one = uint64(math.Float32bits(1))
+		} else if ti.kind == "f64" {
+			one = math.Float64bits(1)
+		}
+		for _, c := range []struct {
+			dims         []int64
+			nTyped, nRaw int
+		}{{[]int64{2}, 3, 2}, {[]int64{2}, 2, 3}, {[]int64{2, 2}, 1, 4}, {[]int64{2, 3}, 4, 6}, {[]int64{2, 2}, 4, 3}, {nil, 2, 1}, {nil, 1, 2}, {[]int64{2}, 2, 2}, {[]int64{3}, 2, 2}} {
+			tp := &onnx.TensorProto{DataType: ti.code, Dims: c.dims}
+			tv := make([]uint64, c.nTyped)
+			for i := range tv {
+				tv[i] = one
+			}
+			rv := make([]uint64, c.nRaw) // zeros: other values than the typed field's
+			setTyped(tp, ti, tv)
+			tp.RawData = rawOf(ti, rv)
+			emit(tp, "both-encodings")
 		}
 	}
 	// several malformed initializers in ONE graph: the model is refused with an error, within a deadline,
